@@ -115,6 +115,12 @@ Decides == \A c \in Ctx : \E k \in ElemKinds : Base(c, k) # "open"
 \* the fallback exists exactly for the shadowed forms
 FallbackOnlyShadowed == \A c \in Ctx : (Base(c, "star") = "fallback") = (c \in Shadowed)
 
+\* Every program is tried with its leaves written as plain expressions, and again with the leaves at some
+\* positions written as forms that need statements (the compiler has to hoist those without losing anything):
+\* none, each single position, all of them.  A position is <<i>> as a one-element sequence for JSON's sake.
+StmtMasks == {{}} \cup {{i} : i \in 1..Len(elems)} \cup {1..Len(elems)}
+MaskSeq(m) == [i \in 1..Len(elems) |-> i \in m]
 Export == WellFormed => PrintT(<<"PROG", ToJson([ctx |-> ctx, elems |-> elems, expect |-> Expect,
-                                                 constructs |-> [i \in 1..Len(elems) |-> CAt(i)]])>>)
+                                                 constructs |-> [i \in 1..Len(elems) |-> CAt(i)],
+                                                 masks |-> {MaskSeq(m) : m \in StmtMasks}])>>)
 =============================================================================
